@@ -27,10 +27,10 @@ func enterBubble() {
 
 // scenario: per-worker programs on one store, after a sequential setup.
 type scenario struct {
-	Name    string
-	Geo     *fixture.Geo
-	Setup   []op
-	Workers [][]op
+	Name     string
+	Geo      *fixture.Geo
+	Setup    []op
+	Workers  [][]op
 	FinalDel bool
 }
 
